@@ -3,7 +3,9 @@
 Engine: SimLoop (single thread, manager not running; the harness calls flush()/tick() on whichever components are
 currently roots).  Workload: a pool of <= 6 components instantiated from generated classes (explicit @handler methods:
 named / catch-all / global, per-handler channel overrides, priorities, single inheritance with and without
-override=True over up to three class levels, Component subclasses with implicit method handlers), component channels
+override=True over up to three class levels, Component subclasses with implicit method handlers, public methods named like
+events that are marked @handler(False) = declared not to be handlers - in the class itself, inherited from a base class, and
+re-declared as a normal handler by a subclass), component channels
 from {'*','a','b'}, and a history of register / unregister / addHandler / removeHandler / fire / flush / tick operations,
 some of them executed from inside a handler while a dispatch is running.
 
@@ -11,7 +13,8 @@ Oracle: at dispatch-begin of every generated event (marker: a wrapper around Man
 an independent reference computes the set of receivers from (a) the component tree as linked at that moment (public
 `components` / `parent` attributes), (b) the harness's own table of declared / added / removed handlers and (c) the
 matching rule transcribed from the statement; at dispatch-end the multiset of receivers logged by the generated
-handlers themselves must be exactly that set, each once.
+handlers themselves must be exactly that set, each once.  A generated @handler(False) method reports its own invocation at
+once ('and to no other handler'): nothing but the dispatcher ever calls it.
 """
 import types
 from collections import Counter
@@ -30,7 +33,8 @@ LEVEL_TEXT = ('seeded exploration of generated component forests x handler shape
 LEVEL_NOTE = ('trusted: the reference matcher (~40 lines, transcribed from the statement), the harness table of handlers, the public '
               '`components`/`parent` links as the definition of "the tree" (their consistency is C07\'s subject), a time-marker wrapper '
               'around Manager._dispatcher (observes nothing but begin/end), CPython')
-RULE = ('each run = generated classes + pool of 2-6 components + history of up to max_ops operations (fire / flush / tick / register / '
+RULE = ('each run = generated classes (handlers and, in about every third class body, @handler(False) non-handler methods named like events) '
+        '+ pool of 2-6 components + history of up to max_ops operations (fire / flush / tick / register / '
         'unregister / addHandler / removeHandler / detach-and-refire / operations armed to run inside a handler), all drawn from one seeded tape; '
         'non-trivial = at least 3 judged dispatches and at least one judged dispatch of a (root, event name, channel) key that the same '
         'root had dispatched before with a structural change in between (warm cache); distinct = distinct digest of the full '
@@ -38,7 +42,7 @@ RULE = ('each run = generated classes + pool of 2-6 components + history of up t
 STATE_MEASURE = '(forest shape as parent vector, number of keys dispatched before by the dispatching root (bucketed), last structural operation) per judged dispatch'
 REAL = ['circuits.core.manager.Manager (fire/flush/tick/_dispatcher/getHandlers/addHandler/removeHandler/registerChild/unregisterChild, handler cache)',
         'circuits.core.components.BaseComponent / Component (register/unregister/prepare_unregister protocol, handler collection in __new__/__init__)',
-        'circuits.core.handlers.handler / HandlerMetaClass', 'circuits.core.events.Event']
+        'circuits.core.handlers.handler (incl. the handler(False) opt-out) / HandlerMetaClass', 'circuits.core.events.Event']
 STUBBED = ['handler tie-break order (decided by the tape through the Manager.getHandlers order seam)',
            'Manager._dispatcher is wrapped by a pass-through that marks dispatch-begin/end of generated events (no state is read)']
 ASSUMPTIONS = [
@@ -49,11 +53,14 @@ ASSUMPTIONS = [
     'an event that was fired but not dispatched although every current root has been flushed until its queue was empty counts as not delivered if the reference expects at least one receiver',
     'single inheritance chains of up to three generated classes; "without override" = a same-named method further down is an additional handler and the base handler stays (handler() docstring), also for classes derived from the redefining class',
     'a structural operation of a generated (valid) history that raises cannot be "reflected" and is reported under the live-set clause (does not happen on the pinned tree except as a consequence of a listed finding)',
+    '@handler(False) methods are generated only under method names that no inherited handler uses: whether opting a method name out in a subclass also silences the base class\'s handler of that name is not said anywhere (statement, handler() docstring, manual), so that shape is not generated; the reverse (a subclass re-declares an opted-out method as an implicit or explicit handler) makes the subclass\'s method a handler and leaves the base method a non-handler',
+    'a method marked @handler(False) is a receiver under no reading of the statement (any tree, channel, pending unregistration, handler set changed mid-dispatch), so its invocation is reported also during dispatches that are otherwise judged weakly or not at all',
     'handlers neither raise nor suspend; the manager is not running (tick() == task step + flush)',
 ]
 PROBES = ['threaded', 'judged-dispatch', 'warm-after-change', 'detached-root-warm-key', 'limbo-dispatch', 'instance-target', 'default-target',
           'in-handler-op', 'nested-flush', 'inherited-handler-invoked', 'override-suppressed-class', 'two-level-inheritance-class', 'implicit-handler-invoked',
           'global-handler-invoked', 'catchall-handler-invoked', 'dynamic-handler-invoked', 'remove-handler', 'readd-handler',
+          'optout-method-class', 'optout-name-dispatched', 'optout-inherited-name-dispatched', 'optout-redeclared-handler-invoked',
           'partial-remove', 'zero-receivers', 'unjudged-firer-moved', 'tainted-dispatch', 'unregister-completed', 'depth>=3']
 TIERS = {
     'quick': dict(runs=60000, wall=30, chunk=200, cfg=dict(max_ops=40, max_comps=6, threaded_share=12)),
@@ -63,6 +70,7 @@ TIERS = {
 K_STALE_DETACHED = 'C01/live-set/stale/detached-root'
 K_REMOVE_ALL = 'C01/live-set/removed-handler-invoked/all-events-handler'
 K_LOST_INDIRECT = 'C01/every-matching-handler/inherited/shadowed-handler-of-indirect-base'
+K_OPTOUT = 'C01/no-other-handler/method-declared-not-a-handler'
 
 NAMES = ['e0', 'e1', 'e2']
 HCHANS = [None, 'a', 'b', '*']
@@ -121,9 +129,11 @@ def declared_for(names, evname):
 
 class HDef:
     """One declared handler (a function); shared by all instances of its class."""
-    __slots__ = ('hid', 'mname', 'names', 'chan', 'prio', 'override', 'origin', 'func', 'cls', 'level')
+    __slots__ = ('hid', 'mname', 'names', 'chan', 'prio', 'override', 'origin', 'func', 'cls', 'level', 'redecl')
 
     def label(self):
+        if self.origin == 'optout':
+            return 'h%d=%s.%s(@handler(False))' % (self.hid, self.cls, self.mname)
         c = self.chan
         cs = '' if c is None else (' channel=%s' % (c if isinstance(c, str) else '#%d' % c._sim_idx))
         return 'h%d=%s.%s(%s%s prio=%r%s)' % (self.hid, self.cls, self.mname, ','.join(self.names) or 'ALL', cs, self.prio,
@@ -156,6 +166,7 @@ class Sim:
         self.live = []          # per component: {hid: Rec}
         self.removed = []       # per component: {hid: Rec}
         self.suppressed = []    # per component: set of hids of base handlers overridden in its class
+        self.optout = []        # per component: {hid: (HDef, inherited)} of the methods its class chain marks @handler(False): not handlers
         self.pending = set()    # components on which unregister() was called and that are not yet detached
         self.root_epoch = []    # how often the component was registered under a parent
         self.root_disp = []     # judged-or-not dispatches of generated events done as a root
@@ -185,7 +196,7 @@ class Sim:
         hd = HDef()
         self.next_hid += 1
         hd.hid, hd.cls, hd.mname, hd.names, hd.chan, hd.prio, hd.override, hd.origin = self.next_hid, cls, mname, tuple(names), chan, prio, override, origin
-        hd.level = level
+        hd.level, hd.redecl = level, False
         sim = self
 
         def f(self, event, *args, **kwargs):
@@ -203,6 +214,23 @@ class Sim:
             hd.func = handler(*names, **kw)(f)
         return hd
 
+    def new_optout(self, cls, mname, level):
+        """a public method named like an event and marked @handler(False): 'a method [that] will not be marked as an event handler'
+        (docs/source/man/handlers.rst), in Component subclasses the documented way to keep a public method from becoming an
+        implicit handler.  Signature as in the manual's example (no `event` parameter)."""
+        hd = HDef()
+        self.next_hid += 1
+        hd.hid, hd.cls, hd.mname, hd.names, hd.chan, hd.prio, hd.override, hd.origin = self.next_hid, cls, mname, (), None, 0, False, 'optout'
+        hd.level, hd.redecl = level, False
+        sim = self
+
+        def f(self, *args, **kwargs):
+            sim.on_invoke_optout(self, hd)
+        f.__name__ = mname
+        f.__qualname__ = '%s.%s' % (cls, mname)
+        hd.func = handler(False)(f)
+        return hd
+
     def draw_spec(self):
         ch = self.ch
         kind = ch.weighted([5, 2, 1], 'hkind')
@@ -216,10 +244,11 @@ class Sim:
             names, chan = [], '*'                                      # global: no names, channel '*'
         return names, chan, ch.choice(PRIOS, 'hprio')
 
-    def gen_own(self, cls, implicit, inherited, lv, last):
-        """handler definitions written in the body of one class (level lv of its chain; inherited = what its base hands down)"""
+    def gen_own(self, cls, implicit, inherited, lv, last, inh_opt=()):
+        """handler definitions written in the body of one class (level lv of its chain; inherited = what its base hands down,
+        inh_opt = the @handler(False) methods of its bases) -> (handlers, @handler(False) methods)"""
         ch = self.ch
-        own = []
+        own, own_opt = [], []
         if implicit:
             mask = ch.draw(8, 'implicit-methods') if inherited else 1 + ch.draw(7, 'implicit-methods')
             for i, n in enumerate(NAMES):
@@ -244,7 +273,29 @@ class Sim:
                 else:
                     names, chan, prio = self.draw_spec()
                     own.append(self.new_hdef(cls, d.mname, names, chan, prio, ov, 'explicit', lv))
-        return own
+        # methods declared NOT to be handlers.  Never under the method name of an inherited handler (whether opting out in a subclass
+        # also silences the base class's handler is not said anywhere: not generated, see ASSUMPTIONS)
+        taken = {d.mname for d in own} | {d.mname for d in inherited}
+        seen = []
+        for o in inh_opt:                       # a subclass re-declares an inherited opted-out method as a normal handler
+            if o.mname in seen or o.mname in taken:
+                continue
+            seen.append(o.mname)
+            if ch.chance(1, 3, 'optout-redeclare'):
+                if implicit and ch.chance(1, 2, 'optout-redeclare-implicit'):
+                    own.append(self.new_hdef(cls, o.mname, [o.mname], None, 0, False, 'implicit', lv))
+                else:
+                    names, chan, prio = self.draw_spec()
+                    own.append(self.new_hdef(cls, o.mname, names, chan, prio, False, 'explicit', lv))
+                taken.add(o.mname)
+        for d in own:
+            d.redecl = any(o.mname == d.mname for o in inh_opt)
+        if ch.chance(1, 3, 'optout-class'):
+            mask = 1 + ch.draw(7, 'optout-methods')
+            for i, n in enumerate(NAMES):
+                if mask >> i & 1 and n not in taken:
+                    own_opt.append(self.new_optout(cls, n, lv))
+        return own, own_opt
 
     def gen_class(self, k):
         """a chain root_base <- [A<k> <-] [B<k> <-] K<k> of generated classes (single inheritance); components are instances of K<k>"""
@@ -252,12 +303,13 @@ class Sim:
         implicit = ch.chance(1, 3, 'implicit-class')
         cls = Component if implicit else BaseComponent
         nbase = ch.weighted([6, 3, 1], 'base-classes')
-        chan, inherited, suppressed, names_at, bases = None, [], [], [], []
+        chan, inherited, suppressed, names_at, bases, optout = None, [], [], [], [], []
         for lv in range(nbase + 1):
             last = lv == nbase
             label = 'K%d' % k if last else '%s%d' % ('AB'[lv + 2 - nbase], k)
-            own = self.gen_own(label, implicit, inherited, lv, last)
-            ns = {d.mname: d.func for d in own}
+            own, own_opt = self.gen_own(label, implicit, inherited, lv, last, optout)
+            ns = {d.mname: d.func for d in own + own_opt}
+            optout = optout + own_opt           # what a base class marked as not-a-handler stays a non-handler in every subclass
             c = ch.choice([None, 'a', 'b'], 'class-channel')
             if c:
                 ns['channel'] = chan = c
@@ -276,7 +328,9 @@ class Sim:
             self.ctx.stat('override-suppressed-class')
         if nbase == 2:
             self.ctx.stat('two-level-inheritance-class')
-        return dict(k=k, cls=cls, name=bases[-1], chan=chan, handlers=inherited, top=nbase, lost=lost, suppressed=suppressed,
+        if optout:
+            self.ctx.stat('optout-method-class')
+        return dict(k=k, cls=cls, name=bases[-1], chan=chan, handlers=inherited, top=nbase, lost=lost, suppressed=suppressed, optout=optout,
                     implicit=implicit, bases=' <- '.join(reversed(bases[:-1])))
 
     def build(self):
@@ -301,14 +355,16 @@ class Sim:
             self.live.append(recs)
             self.removed.append({})
             self.suppressed.append({d.hid for d in sh['suppressed']})
+            self.optout.append({d.hid: (d, d.level < sh['top']) for d in sh['optout']})
             self.root_epoch.append(0)
             self.root_disp.append(0)
             if ctx.keep_trace:
-                ctx.trace('c%d = %s(%s)%s channel=%s: %s%s' % (
+                ctx.trace('c%d = %s(%s)%s channel=%s: %s%s%s' % (
                     i, sh['name'], sh['bases'] or ('Component' if sh['implicit'] else 'BaseComponent'), ' [Component: public methods are handlers]' if sh['implicit'] else '',
                     self.chan[i], '; '.join(r.hd.label() for r in recs.values()),
-                    ('; overridden: ' + ', '.join(d.label() for d in sh['suppressed'])) if sh['suppressed'] else ''))
-            ctx.log('C', i, sh['name'], self.chan[i], ','.join('%d' % h for h in recs))
+                    ('; overridden: ' + ', '.join(d.label() for d in sh['suppressed'])) if sh['suppressed'] else '',
+                    ('; NOT handlers: ' + ', '.join(d.label() for d in sh['optout'])) if sh['optout'] else ''))
+            ctx.log('C', i, sh['name'], self.chan[i], ','.join('%d' % h for h in recs), ','.join('%d' % d.hid for d in sh['optout']))
         self.focus = ch.draw(n + 1, 'focus-component') - 1
         # swarm knob: may unregister() be called inside a subtree whose own unregistration is still pending?  (then the inner
         # one never completes on the pinned tree - C07's subject - and that subtree stays 'pending', i.e. weakly judged, for good)
@@ -394,6 +450,12 @@ class Sim:
             ctx.stat('unjudged-firer-moved')
         fr.required, fr.allowed, fr.limbo = self.expected(fr.didx, m)
         fr.mem = set(self.members(fr.didx))
+        if fr.judged:
+            # reach probe: an event named like a @handler(False) method of a component in the tree, on a channel that component listens on
+            for ci in fr.mem:
+                for od, inh in self.optout[ci].values():
+                    if od.mname == m['name'] and listens(self.chan[ci], m['target'], self.comps[ci]):
+                        ctx.stat('optout-inherited-name-dispatched' if inh else 'optout-name-dispatched')
         self.seq += 1
         fr.seq, fr.repoch = self.seq, self.root_epoch[fr.didx]
         self.stack.append(fr)
@@ -547,6 +609,8 @@ class Sim:
         if live is not None:
             if live.inherited:
                 ctx.stat('inherited-handler-invoked')
+            if hd.redecl:
+                ctx.stat('optout-redeclared-handler-invoked')
             if hd.origin == 'implicit':
                 ctx.stat('implicit-handler-invoked')
             elif hd.origin == 'dynamic':
@@ -561,6 +625,28 @@ class Sim:
                 pass
             except Exception as e:       # circuits would swallow it; surface it as a harness error after the flush
                 self.exc = e
+
+    def on_invoke_optout(self, comp, hd):
+        """'... and to no other handler': a method that its class declares not to be a handler (@handler(False)) was invoked.  The harness
+        never calls these methods itself, so the caller is the dispatcher; no reading of the statement (tree, channel, pending
+        unregistration, handler set changed mid-dispatch) makes a non-handler a receiver, hence reported whatever the state of the frame."""
+        ctx = self.ctx
+        ci = comp._sim_idx
+        fr = self.stack[-1] if self.stack else None
+        ctx.log('N', fr.eid if fr else 0, ci, hd.hid)
+        if fr is not None:
+            fr.got.append((ci, hd.hid))
+        if ctx.violations:
+            return
+        inh = self.optout[ci].get(hd.hid, (hd, False))[1]
+        if fr is None:
+            where = 'outside any dispatch of a generated event'
+        else:
+            m = self.meta[fr.eid]
+            where = 'during the dispatch of e%d (%s fired by c%d on channel %s) by root c%d' % (fr.eid, m['name'], m['src'], m['tlabel'], fr.didx)
+        ctx.violation(K_OPTOUT, 'c%d.%s is marked @handler(False) (%s), i.e. declared not to be a handler, but was invoked %s' % (
+            ci, hd.label(), 'inherited from base class %s' % hd.cls if inh else 'in its own class', where))
+        ctx.trace('%s^^^ VIOLATION %s: %s invoked' % ('  ' * (len(self.stack) + 1), K_OPTOUT, hd.label()))
 
     # ---- operations -------------------------------------------------------------------------------------------------------
     def struct(self, what):
